@@ -32,6 +32,9 @@ type C12Op struct {
 	Headers [][2]string `json:"headers,omitempty"`
 	N       int         `json:"n,omitempty"` // publish batch size / lease batch
 	DupID   bool        `json:"dup_id,omitempty"`
+	// FaultAt > 0: the store answers the FaultAt-th per-target enqueue of this request with a transient error
+	FaultAt   int    `json:"fault_at,omitempty"`
+	FaultKind string `json:"fault_kind,omitempty"` // full | pressure | other
 }
 
 type C12Case struct {
@@ -121,6 +124,10 @@ func genC12Case() *rapid.Generator[C12Case] {
 						op.Headers = append(op.Headers, [2]string{"Authorization", "Bearer zzzzzzzzzzzz"})
 					}
 				}
+				if rapid.IntRange(0, 5).Draw(t, "fault") == 0 {
+					op.FaultAt = rapid.IntRange(1, 3).Draw(t, "fault_at")
+					op.FaultKind = rapid.SampledFrom([]string{"full", "pressure", "other"}).Draw(t, "fault_kind")
+				}
 			case "publish":
 				op.N = rapid.SampledFrom([]int{1, 2, 3, 4, 7}).Draw(t, "n")
 				op.DupID = rapid.IntRange(0, 5).Draw(t, "dup") == 0
@@ -148,7 +155,7 @@ func activeCount(ms []fMsg) (active, queued int) {
 
 func runC12(c C12Case, _ bool) *fOutcome {
 	out := newFOutcome()
-	w, err := newFrontWorld(c12Text(c), worldOpts{backend: c.Backend})
+	w, err := newFrontWorld(c12Text(c), worldOpts{backend: c.Backend, faults: true})
 	if err != nil {
 		out.Failure = ffail("HARNESS", "world", 0, "%v\n%s", err, c12Text(c))
 		return out
@@ -198,8 +205,47 @@ func runC12(c C12Case, _ bool) *fOutcome {
 		case "post":
 			body := []byte(strings.Repeat("b", op.BodyLen))
 			req := FReq{Method: "POST", Path: route, Host: "h", Remote: "203.0.113.9:1", Headers: op.Headers, Body: body}
+			faultIdx := 0
+			if op.FaultAt > 0 && op.FaultAt <= len(targets) {
+				faultIdx = op.FaultAt
+				ferr := map[string]error{"full": queue.ErrQueueFull, "pressure": queue.ErrMemoryPressure}[op.FaultKind]
+				if ferr == nil {
+					ferr = errInjected
+				}
+				w.faults.arm(map[int]error{faultIdx: ferr})
+			}
 			rec := serve(w.ingress, req)
+			w.faults.arm(nil)
 			added, removed, after := diff()
+			if faultIdx > 0 && rec.Code != 413 {
+				// the store refused the copy for target #faultIdx: the request must be answered 503 and keep
+				// exactly the copies for the targets before it (when those were admitted at all)
+				out.Labels["injected-enqueue-fault"] = true
+				if rec.Code == 202 {
+					out.Failure = ffail("C12,C01", "fault-answered-202", i, "POST %s: the store refused the copy for target %d of %d (%s) but the request was answered 202; stored %v", route, faultIdx, len(targets), op.FaultKind, targetsOf(added))
+					return out
+				}
+				if rec.Code == 503 {
+					for _, m := range added {
+						pos := -1
+						for k, t := range targets {
+							if t == m.Target {
+								pos = k + 1
+							}
+						}
+						if pos >= faultIdx {
+							out.Failure = ffail("C12,C01", "fault-not-prefix", i, "POST %s: refused at target %d of %d but a copy for target %d is stored (%v)", route, faultIdx, len(targets), pos, targetsOf(added))
+							return out
+						}
+					}
+					if faultIdx > 1 && len(added) > 0 {
+						out.NonTriv = true
+					}
+				}
+				_ = removed
+				_ = after
+				continue
+			}
 			stored := expectedStored(op.Headers)
 			lower := 0
 			for k, v := range stored {
@@ -627,4 +673,28 @@ func runC12RL(c C12RLCase, tolerate bool) *fOutcome {
 
 func TestProp_C12_RateLimit(t *testing.T) {
 	frontProp(t, "C12", "TestProp_C12_RateLimit", genRLCase(), runC12RL)
+}
+
+// TestProp_C01_FanoutFault: C01's in-process tier. Same machinery as the C12 ingress tier with
+// store faults injected into the per-target enqueues; only clauses that belong to C01 (a 202 that
+// does not stand for one committed copy per target) are reported here.
+func runC01Fault(c C12Case, tolerate bool) *fOutcome {
+	out := runC12(c, tolerate)
+	if out.Failure != nil && out.Failure.Prop != "HARNESS" {
+		keep := false
+		for _, p := range strings.Split(out.Failure.Prop, ",") {
+			if strings.TrimSpace(p) == "C01" {
+				keep = true
+			}
+		}
+		if !keep {
+			out.Labels["foreign-clause:"+out.Failure.Clause] = true
+			out.Failure = nil
+		}
+	}
+	return out
+}
+
+func TestProp_C01_FanoutFault(t *testing.T) {
+	frontProp(t, "C01", "TestProp_C01_FanoutFault", genC12Case(), runC01Fault)
 }
